@@ -1062,9 +1062,14 @@ def inflight_cases(jobs):
             linecache.cache[fname] = (len(src), None, src.splitlines(True), fname)
             exec(compile(src, fname, "exec"), ns, ns)
             P = Ovld()
+            f_fn = ns["f"]
             P.register(ns["f"])
             P.register(ns["m1"])
             ns["f"] = P.dispatch      # as the decorator form leaves it: the name denotes the overloaded function
+            if job.get("selfunreg"):
+                # the running method unregisters *itself* (no other method of the module is rewritten) and recurses
+                # with an argument of its own class: the recursion must not come back to it
+                ns["TARGET"] = K4()
             if job["change"] == "unregister":
                 P.register(ns["m2"])
             target = P
@@ -1076,6 +1081,8 @@ def inflight_cases(jobs):
                     V2 = V.copy(linkback=True)
                     target = V2
             state["change"] = (lambda: P.register(ns["m2"])) if job["change"] == "register" else (lambda: P.unregister(ns["m2"]))
+            if job.get("selfunreg"):
+                state["change"] = lambda: P.unregister(f_fn)
             # build (and warm) the function the call goes through
             target(K2())
             if job["warm"]:
@@ -1091,7 +1098,7 @@ def inflight_cases(jobs):
                 obs["err"] = describe(e)
                 e.__traceback__ = None
             after = log[log.index(">split") + 1:] if ">split" in log else None
-            call = {"pos": [{"c": 3}], "kwn": [], "kwa": []}
+            call = {"pos": [{"c": 4 if job.get("selfunreg") else 3}], "kwn": [], "kwa": []}
             ent = [{"m": mid, "call": call, "next": {"has": False, "call": {"pos": [], "kwn": [], "kwa": []}}} for mid in (after or [])]
             if job["via"] == "next":
                 # the running activation delegates with the arguments it received: the chain continues below it,
@@ -1102,6 +1109,8 @@ def inflight_cases(jobs):
                 ent = [{"m": "fb", "call": call, "next": {"has": True, "call": call}}] + ent
             obs["entered"] = ent
             ids = ["fb", "m1"] + (["m2"] if job["change"] == "register" else [])
+            if job.get("selfunreg"):
+                ids = ["m1"] + (["m2"] if job["change"] == "unregister" else [])
             if job["mode"] != "plain":
                 ids.append("mv")
             for k in [k for k in linecache.cache if k.startswith("<ovld:") or k.startswith("<vf:")]:
@@ -1720,7 +1729,7 @@ def spell_cases(jobs):
         argvals = [A(), B(), Asub(), C(), None, 1, 2, 3, "s", [A()], [1], []]
         if "typeof" in json.dumps(job["s1"]):
             # annotations of passed classes: the arguments are classes
-            argvals = [A, B, Asub, C, int, bool, str, type(None), object, A(), 1]
+            argvals = [A, B, Asub, C, int, bool, str, type(None), object, A(), 1, list[A], list[Asub], list[int], typing.List[A], list]
 
         def build(ctx, sa, sb):
             ns = dict(base)
